@@ -8,9 +8,9 @@ CONSTANTS
   MaxPub = 1
   AutoReconnect = TRUE
   SrvTransfers = FALSE
-  Dev_BlockingSignals = TRUE
+  Dev_BlockingSignals = FALSE
   Dev_SplitSignals = TRUE
-  Dev_RestoreNoResume = TRUE
+  Dev_RestoreNoResume = FALSE
   Dev_RecreateErrorLost = TRUE
   Dev_ArmIgnoresClose = TRUE
   Dev_DrainDropsLoss = TRUE
